@@ -67,9 +67,9 @@ INTR['invoke:%d.Error' % ERR_T] = _err_invoke
 
 def fmt_value(M, v, verb='v', plus=False):
     """%v / %s / %d of a Go value (as held in an `any`)"""
-    if isinstance(v, Iface) and isinstance(v.v, SymName):
+    if isinstance(v, Iface) and isinstance(v.v, (SymName, SymRope)):
         v = Iface(v.t, v.v.force(M))
-    if isinstance(v, SymName):
+    if isinstance(v, (SymName, SymRope)):
         v = v.force(M)
     if isinstance(v, Iface):
         if v.t == ERR_T:
